@@ -206,6 +206,37 @@ Proof.
 Qed.
 Print Assumptions C30_dial_target_vetted.
 
+(* 11. Redirect chains.  The redirect decision is  validate target && len via < max  with the SAME
+       validate as for an initial URL and no dependence on where the redirect comes from; by induction
+       over the chain every URL that is requested -- the initial one and every followed hop -- is
+       http/https, carries NO userinfo and names a host (image box: no userinfo, a host, no private
+       literal); a revocation fetch requests at most 10 URLs; what is requested is a prefix of the chain. *)
+Theorem C30_redirect_chain_validated :
+  (forall nvia u, revocationRedirect nvia u = (validateRevocationURL u && (nvia <? maxRevocationRedirects))) /\
+  (forall first targets u, In u (revocationFetchChain first targets) ->
+     validateRevocationURL u = true /\
+     exists p, u = Some p /\ (uScheme p = s_http \/ uScheme p = s_https) /\ uHasUser p = false /\ uHostname p <> []) /\
+  (forall first targets, (length (revocationFetchChain first targets) <= 10)%nat /\
+     exists k, revocationFetchChain first targets = firstn k (first :: targets)) /\
+  (forall first targets u, In u (imageBoxFetchChain first targets) ->
+     validateImageBoxRemoteURL u = true /\ uHasUser u = false /\ uHostname u <> [] /\
+     (forall a, uHostIP u = Some a -> bytesb a = true -> private_or_local a = false)).
+Proof.
+  split; [|split; [|split]].
+  - intros nvia u. unfold revocationRedirect, maxRevocationRedirects.
+    destruct (10 <=? nvia) eqn:E; destruct (nvia <? 10) eqn:F; try lia;
+      destruct (validateRevocationURL u); reflexivity.
+  - intros first targets u H. pose proof (revocationFetchChain_valid _ _ _ H) as V.
+    split; [exact V|apply validateRevocationURL_sound; exact V].
+  - intros first targets. split; [apply revocationFetchChain_length|].
+    unfold revocationFetchChain. destruct (validateRevocationURL first); [|exists 0%nat; reflexivity].
+    destruct (revocationFollow_prefix targets 1) as [k Hk]. exists (S k). cbn [firstn]. rewrite Hk. reflexivity.
+  - intros first targets u H. pose proof (imageBoxFetchChain_valid _ _ _ H) as V.
+    split; [exact V|]. destruct (validateImageBoxRemoteURL_sound u V) as (A & B & C).
+    split; [exact A|]. split; [exact B|]. intros a Ea Ba. apply (C a Ea). apply bytesb_bytes. exact Ba.
+Qed.
+Print Assumptions C30_redirect_chain_validated.
+
 (* ---- non-vacuity: hypotheses satisfiable, both outcomes occur *)
 Definition pub1 : ip := [93;184;216;34].
 Definition pub6 : ip := [0x20;0x01;0x0d;0xb8;0;0;0;0;0;0;0;0;0;0;0;1].
@@ -258,4 +289,16 @@ Example C30_rebinding_nonvacuous :
     = (DDialled [pub6; pub1] true, 1, [Some [[127;0;0;1]]]) /\
   revocationDialCandidates [] host_a (Some [pub6; pub1]) = [pub6; pub1] /\
   revocationDialCandidates [] host_a (Some [pub6; [10;0;0;1]]) = [].
+Proof. vm_compute. repeat split; reflexivity. Qed.
+
+(* a responder redirecting to its own origin with credentials: the hop is refused, nothing after it is requested *)
+Example C30_redirect_chain_nonvacuous :
+  let u := Some (mkURL s_http false host_a None) in
+  let u_creds := Some (mkURL s_http true host_a None) in
+  revocationFetchChain u [u; u_creds; u] = [u; u] /\
+  revocationFetchChain u_creds [u] = [] /\
+  length (revocationFetchChain u (repeat u 20)) = 10%nat /\
+  imageBoxFetchChain (mkURL s_https false host_a None)
+     [mkURL s_https false host_a None; mkURL s_https true host_a None; mkURL s_https false host_a None]
+   = [mkURL s_https false host_a None; mkURL s_https false host_a None].
 Proof. vm_compute. repeat split; reflexivity. Qed.
